@@ -57,7 +57,8 @@ def _prop(s, name):
 
 # kind -> (how to reach the object in a fresh BASE sheet, {attr: [valid texts]})
 KINDS = {
-    "sheet": (lambda s: s, {"cssText": ["a{x:1}", "@import 'x.css'; b{y:2}", "@media tv{a{x:1}}", '@charset "ascii"; a{x:1}'],
+    "sheet": (lambda s: s, {"cssText": ["a{x:1}", "@import 'x.css'; b{y:2}", "@media tv{a{x:1}}", '@charset "ascii"; a{x:1}',
+                                        "@variables {d: 1px} b{left: var(d)} c{top:0}"],
                             "encoding": ["ascii", "latin-1"]}),
     "charset": (lambda s: _r(s, "CSSCharsetRule"), {"cssText": ['@charset "ascii";'], "encoding": ["ascii", "latin-1"]}),
     "comment": (lambda s: _r(s, "CSSComment"), {"cssText": ["/*x*/"]}),
@@ -248,7 +249,7 @@ def gen_histories(ctx, thorough):
         for attr, valids in attrs.items():
             for pre in pres:
                 for t in REJECT_TEXTS + [valids[0] + " }x"]:
-                    if thorough or rng.random() < 0.1:
+                    if thorough or rng.random() < 0.08:
                         cases.append((kind, attr, t, 0, 1, [pre]))
     return cases
 
@@ -286,6 +287,9 @@ def gen_cases(ctx, thorough):
             # readonly objects: every assignment must be rejected and change nothing
             for t in valids[:2] + ["", "junk{"]:
                 cases.append((kind, attr, t, 1))
+    if not thorough:
+        # quick tier: a seeded 70 % sample of the single assignments (the thorough tier runs all of them)
+        cases = [c for c in cases if c[3] or rng.random() < 0.7]
     return cases + gen_histories(ctx, thorough)
 
 
@@ -345,7 +349,7 @@ def public_fp(sheet, obj, attrs):
             fp["sheet.encoding"] = "<%s>" % type(e).__name__
         for nm, f in (("sheet.variables", lambda: sorted((k, sheet.variables[k]) for k in sheet.variables.keys())),
                       ("sheet.namespaces", lambda: sorted(sheet.namespaces.items())),
-                      ("sheet.rules", lambda: [(r.type, r.cssText, r.wellformed) for r in sheet.cssRules])):
+                      ("sheet.rules", lambda: [(r.type, r.wellformed) for r in sheet.cssRules])):
             try:
                 fp[nm] = str(f())
             except Exception as e:  # noqa
@@ -394,6 +398,8 @@ class _Count(object):
     def error(self, msg="", *a, **k):
         import sys
         self.n += 1
+        if _T.get("neverraise"):
+            return          # a validation note (neverraise=True): reported, never a rejection
         f = sys._getframe(1)
         while f is not None:
             fn = f.f_code.co_filename
@@ -560,7 +566,11 @@ def _install_tables():
     def handle(self, msg="", token=None, error=xml.dom.SyntaxErr, neverraise=False, args=None):
         if not neverraise and _T["obj"] is not None:
             _T["checks"] += 1
-        return orig_handle(self, msg, token, error, neverraise, args)
+        _T["neverraise"] = bool(neverraise)
+        try:
+            return orig_handle(self, msg, token, error, neverraise, args)
+        finally:
+            _T["neverraise"] = False
     EH._ErrorHandler._ErrorHandler__handle = handle
 
     def unmangled(k):
@@ -720,6 +730,8 @@ def run_case_(case):
             obj = KINDS[kind][0](sheet)
         except Exception as e:  # noqa
             return {"skipped": "object gone after the first step"}
+        if obj is None or not hasattr(obj, "__dict__"):
+            return {"skipped": "object gone after the first step"}
     res = {"script": script_name(obj, attr)}
     css_parser.log.raiseExceptions = True
     try:
@@ -781,7 +793,8 @@ def describe(case, r):
 
 
 def sig_of(case, r):
-    return "%s exc=%s raised-in=%s readonly=%d" % (r.get("script") or case[0] + "." + case[1], r["exc"], r["where"], case[3])
+    return "%s exc=%s raised-in=%s readonly=%d changed=%s" % (r.get("script") or case[0] + "." + case[1], r["exc"], r["where"],
+                                                             case[3], ",".join(r.get("pub_changed") or []))
 
 
 def check_case(ctx, case, r, summ, stats):
@@ -816,8 +829,8 @@ def check_case(ctx, case, r, summ, stats):
                           {"kind": case[0], "attr": case[1], "text": case[2], "readonly": 0, "mode": "lenient",
                            "why": r["l_bad"], "errors_logged": r["l_errors"], "changed": r["l_changed"],
                            "detail": r.get("l_detail")},
-                          sig_text="%s lenient changed=%s" % (r.get("script") or case[0] + "." + case[1],
-                                                              ",".join(r["l_changed"])))
+                          sig_text="%s lenient changed=%s own=%s" % (r.get("script") or case[0] + "." + case[1],
+                                                                     ",".join(r["l_changed"]), (r.get("l_own") or [""])[0][:60]))
     m = summ.get(r["script"]) if r["script"] else None
     if m is None:
         stats["unmodelled"].add(r["script"] or "%s.%s" % (case[0], case[1]))
@@ -910,7 +923,8 @@ def run(ctx):
                               sig_text=sig_of(case, r))
             if r.get("l_bad"):
                 ctx.violation("assignment rejected without raising changed the object", dict(w, mode="lenient"),
-                              sig_text="%s lenient changed=%s" % (r.get("script"), ",".join(r["l_changed"])))
+                              sig_text="%s lenient changed=%s own=%s" % (r.get("script"), ",".join(r["l_changed"]),
+                                                                         (r.get("l_own") or [""])[0][:60]))
     for n in not_atomic:
         if not ctx.match_known("model verdict :: " + n + " exc= raised-in=_setHref"):
             ctx.broken("proof", "atomic " + n, "the regenerated script of %s is not atomic: it may write %s and then raise"
